@@ -159,6 +159,11 @@ func (p *instancePool) Run(ctx context.Context) error {
 			p.log.Info("Pool failed. Canceling started tasks", zap.Error(err))
 			return err
 		}
+		if ctx.Err() != nil {
+			// Started tasks have finished because run was canceled, not because the work is done.
+			p.log.Info("Pool execution canceled")
+			return ctx.Err()
+		}
 		p.log.Info("Pool run finished successfully")
 		return nil
 	}
